@@ -347,6 +347,15 @@ fn respell(e: &E, rng: &mut ChaCha8Rng, how: usize) -> E {
                         6 => E::mul(E::mul(E::Num(1.0), kk), o),                               // 1 * c * x
                         7 => E::Neg(b(E::mul(E::Num(-k), o))),                                 // -((-c) * x)
                         8 if k == -1.0 => E::Neg(b(o)),                                        // -(x) for c = -1
+                        9 => {
+                            // (c*d / d) * x with a divisor of a few millionths: a constant quotient like any other
+                            let d = [0.000008, 0.000002, 0.000004, 0.0000005][rng.gen_range(0..4)];
+                            if (k * d) / d == k {
+                                E::mul(E::div(E::Num(k * d), E::Num(d)), o)
+                            } else {
+                                E::mul(kk, o)
+                            }
+                        }
                         _ => E::mul(kk, o),
                     }
                 }
@@ -370,7 +379,7 @@ fn respell(e: &E, rng: &mut ChaCha8Rng, how: usize) -> E {
     }
 }
 
-const SPELLINGS: [&str; 9] = ["c*x", "x*c", "-(-c)*x", "(0-(-c))*x", "(c/2+c/2)*x", "x/(1/c)", "1*c*x", "-((-c)*x)", "-(x) for c=-1"];
+const SPELLINGS: [&str; 10] = ["c*x", "x*c", "-(-c)*x", "(0-(-c))*x", "(c/2+c/2)*x", "x/(1/c)", "1*c*x", "-((-c)*x)", "-(x) for c=-1", "(cd/d)*x for d<1e-5"];
 
 fn respell_model(m: &M, rng: &mut ChaCha8Rng, how: usize) -> M {
     let mut t = m.clone();
@@ -663,7 +672,7 @@ impl Driver for C10 {
         }
     }
     fn rule(&self) -> String {
-        "(a) Exp::simplify, Exp::flatten and flatten().simplify() on every expression tree with <= 2 operators over leaves {x, y, 0, 1, -0.0, 2, 0.5, 3} and operators neg, abs, not (both forms), + - * /, min, max, and/or (n-ary and BinOp forms), xor, implies, iff (units 0..99 sweep this finite set completely at every run), plus random trees of depth <= 4 with 1..3-ary and/or/min/max; each is evaluated exactly at the 16 assignments x,y in {0,1,2,-3/2}: defined values must be preserved, a defined expression must stay defined, a division by zero must not disappear, simplify must be idempotent. (b) G-model models whose literal products c*e are re-spelled as c*x, x*c, -(-c)*x, (0-(-c))*x, (c/2+c/2)*x, x/(1/c), 1*c*x, -((-c)*x), -(x) for c = -1 (one model in five gets an extra row c*(x - k) rel r with c in {-1, -2, 2} so that products over sums with a constant occur): both twins are compiled; they must be accepted or rejected alike (same error kind) and, when accepted, accept the same assignments with the same best objective on the C01 point sets. (c) a coefficient computed in the where-section from integer and decimal literals (a - b, a + b, a * b, a / d, (a - b) * d, -a + b, a - b - d, a / d / e, a / d * e, optionally through a second constant), the same value written as a literal, and the same expression written inline must give the same coefficients (1e-12). non-trivial = expression with at least one decided assignment / twin pair with >= 3 decided assignments".into()
+        "(a) Exp::simplify, Exp::flatten and flatten().simplify() on every expression tree with <= 2 operators over leaves {x, y, 0, 1, -0.0, 2, 0.5, 3} and operators neg, abs, not (both forms), + - * /, min, max, and/or (n-ary and BinOp forms), xor, implies, iff (units 0..99 sweep this finite set completely at every run), plus random trees of depth <= 4 with 1..3-ary and/or/min/max; each is evaluated exactly at the 16 assignments x,y in {0,1,2,-3/2}: defined values must be preserved, a defined expression must stay defined, a division by zero must not disappear, simplify must be idempotent. (b) G-model models whose literal products c*e are re-spelled as c*x, x*c, -(-c)*x, (0-(-c))*x, (c/2+c/2)*x, x/(1/c), 1*c*x, -((-c)*x), -(x) for c = -1, (c*d/d)*x with d of a few millionths (one model in five gets an extra row c*(x - k) rel r with c in {-1, -2, 2} so that products over sums with a constant occur): both twins are compiled; they must be accepted or rejected alike (same error kind) and, when accepted, accept the same assignments with the same best objective on the C01 point sets. (c) a coefficient computed in the where-section from integer and decimal literals (a - b, a + b, a * b, a / d, (a - b) * d, -a + b, a - b - d, a / d / e, a / d * e, optionally through a second constant), the same value written as a literal, and the same expression written inline must give the same coefficients (1e-12). non-trivial = expression with at least one decided assignment / twin pair with >= 3 decided assignments".into()
     }
     fn thresholds(&self, tier: Tier) -> Thresholds {
         let s = tier.pick(1, 10);
